@@ -581,7 +581,12 @@ def monitor(rep, pid, families, n, maxops, cases_extra=None):
         cases = list(cases_extra.get(fam, []) if cases_extra else []) + cases
         cnt = 0
         for c in cases:
-            viols = run_case(FAMILY_OF.get(fam, fam), c, {pid}, rep, stats)
+            try:
+                with C.time_limit(20):
+                    viols = run_case(FAMILY_OF.get(fam, fam), c, {pid}, rep, stats)
+            except C.TooSlow:
+                stats["too_slow"] = stats.get("too_slow", 0) + 1
+                continue
             total += 1
             cnt += 1
             rep.add_eval(("mon", fam, str(c)), nontrivial=len(c["ops"]) >= 3)
